@@ -331,7 +331,9 @@ Lemma parse_value_container : forall f o wb ts close,
       | POk (vals, pairs, saw_comma, ts2) =>
           match advance wb ts2 with
           | PErr e => PErr e
-          | POk ts3 => POk (container_value (text (cur ts)) vals pairs saw_comma, ts3)
+          | POk ts3 =>
+              if String.eqb (text (cur ts)) "{" && negb (keys_hashable pairs) then PErr (EOther "TypeError")
+              else POk (container_value (text (cur ts)) vals pairs saw_comma, ts3)
           end
       end
   end.
